@@ -39,6 +39,7 @@ func resolveUDP(p *Prog) *udpRoles {
 		return r
 	}
 	var structChans []string
+	var wgFields []string
 	for i := 0; i < lst.NumFields(); i++ {
 		f := lst.Field(i)
 		ts := f.Type().String()
@@ -47,10 +48,8 @@ func resolveUDP(p *Prog) *udpRoles {
 			r.pConn = f.Name()
 		case ts == "sync.Mutex":
 			r.connLock = f.Name()
-		case ts == "*sync.WaitGroup":
-			r.connWG = f.Name()
-		case ts == "sync.WaitGroup":
-			r.readWG = f.Name()
+		case ts == "*sync.WaitGroup" || ts == "sync.WaitGroup":
+			wgFields = append(wgFields, f.Name())
 		}
 		switch t := f.Type().(type) {
 		case *types.Map:
@@ -105,9 +104,9 @@ func resolveUDP(p *Prog) *udpRoles {
 		miss("Close of listener / Conn is not wrapped in sync.Once.Do(closure)")
 		return r
 	}
-	// accepting: atomic.Value on which Close stores; doneCh: chan struct{} closed by listener Close
+	// accepting: atomic.Value / atomic.Bool on which Close stores; doneCh: chan struct{} closed by listener Close
 	instrsOfU(r.LCloseFn, func(in ssa.Instruction) {
-		if isCall(in, "(*sync/atomic.Value).Store") {
+		if isCall(in, "(*sync/atomic.Value).Store") || isCall(in, "(*sync/atomic.Bool).Store") {
 			if fr, ok := asFieldAddr(in.(ssa.CallInstruction).Common().Args[0]); ok && fr.SName == r.LT {
 				r.accepting = fr.Field
 			}
@@ -138,6 +137,18 @@ func resolveUDP(p *Prog) *udpRoles {
 	if r.getConn == nil {
 		miss("no function looks remotes up in the connection table")
 		return r
+	}
+	// the two WaitGroups by usage: the socket reference count is the one getConn adds to (one reference per queued
+	// connection); the other one tracks the package's goroutines
+	for _, in := range findU(r.getConn, func(in ssa.Instruction) bool { return isCall(in, "(*sync.WaitGroup).Add") }) {
+		if f := wgField(in.(ssa.CallInstruction).Common().Args[0], r.LT); f != "" {
+			r.connWG = f
+		}
+	}
+	for _, f := range wgFields {
+		if f != r.connWG {
+			r.readWG = f
+		}
 	}
 	if r.closer == nil {
 		miss("no function calls Close on the listener's socket field " + r.pConn + " (closing another value - e.g. the raw socket under a batching wrapper - leaves what the listener owns open: the wrapper's goroutine keeps running and queued writes are not flushed)")
@@ -191,7 +202,19 @@ func (r *udpRoles) isWG(in ssa.Instruction, method string) bool {
 	if !ok || callName(c) != "(*sync.WaitGroup)."+method {
 		return false
 	}
-	return isFieldLoad(c.Common().Args[0], r.LT, r.connWG)
+	return wgField(c.Common().Args[0], r.LT) == r.connWG
+}
+
+// wgField: the listener field the WaitGroup receiver denotes (a *sync.WaitGroup field is loaded, a sync.WaitGroup
+// field is addressed); "" if neither.
+func wgField(recv ssa.Value, owner string) string {
+	if fr, ok := asFieldLoad(recv); ok && fr.SName == owner {
+		return fr.Field
+	}
+	if fr, ok := asFieldAddr(recv); ok && fr.SName == owner {
+		return fr.Field
+	}
+	return ""
 }
 
 func (r *udpRoles) isConnLock(in ssa.Instruction, op string) bool {
@@ -220,6 +243,14 @@ func (r *udpRoles) acceptingFact(f fact, want bool) bool {
 		}
 		call, ok := origin(ta.X).(*ssa.Call)
 		if !ok || callName(call) != "(*sync/atomic.Value).Load" {
+			return false
+		}
+		fr, ok := asFieldAddr(call.Call.Args[0])
+		return ok && fr.SName == r.LT && fr.Field == r.accepting
+	}, want) || boolFact(f, func(v ssa.Value) bool {
+		// atomic.Bool: the loaded value itself
+		call, ok := origin(v).(*ssa.Call)
+		if !ok || callName(call) != "(*sync/atomic.Bool).Load" {
 			return false
 		}
 		fr, ok := asFieldAddr(call.Call.Args[0])
@@ -387,7 +418,10 @@ func runC12(c *Ctx) {
 			switch {
 			case isIn(f, r.Listen):
 				base := in.(ssa.CallInstruction).Common().Args[0]
-				fr, _ := asFieldLoad(base)
+				fr, okL := asFieldLoad(base)
+				if !okL {
+					fr, _ = asFieldAddr(base) // a sync.WaitGroup held by value
+				}
 				if !isFreshBase(fr.Base) {
 					o.Fail(in.Pos(), "Add in the constructor is not on the freshly created listener")
 				}
@@ -582,7 +616,7 @@ func runC12(c *Ctx) {
 	o = c.Obl("R6", fname(r.LClose), "listener Close: accepting cleared and doneCh closed (once) before connLock is taken for the drain; the own reference is released only after the drain's critical section; Accept fails once doneCh is closed", 4)
 	var store, closeDone, lock, unlock ssa.Instruction
 	forEach(findU(r.LCloseFn, func(ssa.Instruction) bool { return true }), func(in ssa.Instruction) {
-		if isCall(in, "(*sync/atomic.Value).Store") {
+		if isCall(in, "(*sync/atomic.Value).Store") || isCall(in, "(*sync/atomic.Bool).Store") {
 			if fr, ok := asFieldAddr(in.(ssa.CallInstruction).Common().Args[0]); ok && fr.Field == r.accepting {
 				store = in
 			}
@@ -604,7 +638,8 @@ func runC12(c *Ctx) {
 		o.Site(store.Pos(), "accepting.Store(false)")
 		o.Site(closeDone.Pos(), "close(doneCh)")
 		o.Site(lock.Pos(), "connLock.Lock()")
-		if v, ok := store.(ssa.CallInstruction).Common().Args[1].(*ssa.MakeInterface); !ok || !isConstBool(v.X, false) {
+		stored := strip(store.(ssa.CallInstruction).Common().Args[1])
+		if !isConstBool(stored, false) {
 			o.Fail(store.Pos(), "listener Close does not store false into the accepting flag")
 		}
 		if !domU(store, lock) {
